@@ -102,6 +102,7 @@ OgreArrayPoolAllocator<DataType, ContainerType, POOL_SIZE> {
             unsafe {
                 let pool = &mut *(self.pool.get() as *mut Box<[DataType; POOL_SIZE]>);
                 let slot = pool.get_unchecked_mut(slot_id as usize);
+                #[cfg(feature = "verif")] crate::verif::yield_point_w("payload.drop");
                 ptr::drop_in_place(slot);
             }
         }
